@@ -19,7 +19,9 @@ func readPointer(s string) (Path, error) {
 		var element JsonNode
 		var err error
 		number, err := strconv.Atoi(t)
-		if err == nil {
+		// RFC 6901: an array index is "0" or digits without a leading
+		// zero. Anything else ("01", "+1", "-1") is an object key.
+		if err == nil && number >= 0 && strconv.Itoa(number) == t {
 			element, err = NewJsonNode(number)
 		} else {
 			element, err = NewJsonNode(t)
